@@ -5,6 +5,7 @@
 package larking
 
 import (
+	"bytes"
 	"encoding/binary"
 	"fmt"
 	"io"
@@ -116,6 +117,9 @@ func (c CodecProto) ReadNext(b []byte, r io.Reader, limit int) ([]byte, int, err
 			if err != nil && !(err == io.EOF && n > 0) {
 				// Data returned together with io.EOF is processed
 				// first, the next Read reports io.EOF again.
+				if err == io.EOF && len(b) > 0 {
+					err = io.ErrUnexpectedEOF // inside the size prefix
+				}
 				return b, 0, err
 			}
 		}
@@ -215,6 +219,9 @@ func (c CodecJSON) ReadNext(b []byte, r io.Reader, limit int) ([]byte, int, erro
 			if err != nil && !(err == io.EOF && n > 0) {
 				// Data returned together with io.EOF is processed
 				// first, the next Read reports io.EOF again.
+				if err == io.EOF && len(bytes.TrimSpace(b)) > 0 {
+					err = io.ErrUnexpectedEOF // inside an object
+				}
 				return b, 0, err
 			}
 		}
